@@ -570,6 +570,10 @@ def values_equal(ctx, a, b, node=None):
         if isinstance(a, (VBytes, VStr, VInt, VBool, VTuple)) and \
                 isinstance(b, (VBytes, VStr, VInt, VBool, VTuple)):
             return False
+        if isinstance(a, VOpaque) != isinstance(b, VOpaque) and \
+                isinstance(a if isinstance(b, VOpaque) else b, (VBytes, VStr, VInt, VBool, VTuple)):
+            # an opaque object (class, transaction, ...) never equals a plain value
+            return False
     raise Unsupported('equality of %r and %r' % (a, b), node)
 
 
@@ -1384,6 +1388,11 @@ class Interp:
 
     def ex_Call(self, ctx, fr, e):
         fv = self.eval(ctx, fr, e.func)
+        from . import prims as _p
+        if isinstance(fv, VFunc) and fv.kind == 'meth' and isinstance(fv.selfv, _p.VLogger):
+            # logging calls are dropped by the extraction: their arguments are not evaluated
+            ctx.ex.dropped.add('logging call')
+            return NONE
         args = []
         for a in e.args:
             if isinstance(a, ast.Starred):
